@@ -1,5 +1,5 @@
-//! Reference (S)LEB128 semantics written from spec/Candid.md, with explicit
-//! wide arithmetic so that nothing in the oracle can wrap silently.
+// Reference (S)LEB128 semantics written from spec/Candid.md, with explicit
+// wide arithmetic so that nothing in the oracle can wrap silently.
 
 /// Result of reading one LEB128 string from `buf[..len]`.
 #[derive(Clone, Copy, Debug, PartialEq, Eq)]
